@@ -282,6 +282,10 @@ func (f *Frame) dispatch(ins ssa.Instruction, call *ssa.CallCommon, ct *callTarg
 			if _, isPtr := recvT.Underlying().(*types.Pointer); isPtr {
 				// a non-nil interface holding this implementer: receiver pointer may still be nil; keep unconstrained
 				f.addHyp(st.pc, tGe(nct.args[0].(*Term), tInt(0)))
+				if f.root.safety && f.eng.typeInvFor(recvT) != nil {
+					f.addHyp(st.pc, tImp(tNot(tEq(ct.args[0].(*Term), tInt(0))), tGt(nct.args[0].(*Term), tInt(0))))
+					f.root.notes["closed world: a non-nil interface value never holds a nil pointer of a type with a type invariant (obligation at every boxing site of the swept functions)"] = true
+				}
 			}
 			f.safe(st, "nil", tNot(tEq(ct.args[0].(*Term), tInt(0))), ins.Pos(), "method call on nil interface "+call.Value.Name()+"."+call.Method.Name())
 			return f.dispatch(ins, call, &nct, st, resType)
@@ -708,6 +712,7 @@ func init() {
 		"(time.Duration).Seconds": func(f *Frame, ins ssa.Instruction, call *ssa.CallCommon, ct *callTarget, st *State) Value {
 			return mk("/", sortReal, mk("to_real", sortReal, T(f, ct, st, 0)), tReal("1000000000.0"))
 		},
+		"(*sync.Map).Load":       syncMapLoadModel,
 		"(*sync.Mutex).Lock":     noop,
 		"(*sync.Mutex).Unlock":   noop,
 		"(*sync.RWMutex).Lock":   noop,
